@@ -1,5 +1,6 @@
 #!/bin/bash
 # confirm_seeded.sh <worktree> <go package dir relative to go/> <demo test regex> [extra packages...]
+# TESTPKGS="./a/... ./b/" overrides the packages whose existing tests are run (default: the demo package).
 # Confirms a seeded change: builds, existing package tests pass with the change, demo fails with
 # it and passes without it. Writes <worktree>/CONFIRM.txt.
 set -u
@@ -10,7 +11,7 @@ OUT=$WT/CONFIRM.txt; : > $OUT
 echo "== build" >> $OUT
 go build ./store/... ./libraries/... >> $OUT 2>&1 && echo "build ok" >> $OUT || echo "BUILD FAILED" >> $OUT
 echo "== existing tests with the change (demo skipped)" >> $OUT
-go test -vet=off -count=1 $PKG "$@" -skip "$DEMO" 2>&1 | tail -15 >> $OUT
+go test -vet=off -count=1 ${TESTPKGS:-$PKG} "$@" -skip "$DEMO" 2>&1 | tail -15 >> $OUT
 echo "== demo with the change (must FAIL)" >> $OUT
 go test -vet=off -count=1 $PKG -run "$DEMO" 2>&1 | tail -8 >> $OUT
 echo "== demo without the change (must PASS)" >> $OUT
